@@ -50,6 +50,14 @@ pub fn serialize(evs: &[Ev], xhtml: bool) -> String {
 
 pub fn run(n: usize, rng: &mut Rng, rep: &mut Report) {
     let mut cases: Vec<(cfg::Cfg, String)> = vec![];
+    // deep trees (renderers with depth-dependent behaviour): emphasis is not bounded by max_nesting
+    for d in [
+        "*a _b ".repeat(60) + "needle" + &" b_ a*".repeat(60),
+        "> ".repeat(99) + "needle",
+        "> ".repeat(70) + &"*a ".repeat(45) + "needle" + &" a*".repeat(45),
+        "- ".repeat(49) + "needle *x*",
+        "[".repeat(90) + "needle" + &"](u)".repeat(90),
+    ] { cases.push((cfg::Cfg::stock(), d)); }
     for _ in 0..n { cases.push((cfg::sample(rng, false, true), doc::any_doc(rng))); }
     let res = crate::run::big_stack(move || {
         let mut rep = Report::new();
